@@ -48,6 +48,8 @@ class SpecFn:
                 r = None
             except _Return as ret:
                 r = ret.value
+            except PyRaise as pr:
+                raise Unsupported(f'spec {self.name} raised {pr.exc.typ} at its line {pr.exc.lineno}')
         finally:
             I.spec_depth -= 1
         return r
